@@ -39,6 +39,8 @@ type Step struct {
 	Kind StepKind
 	Name string
 	I    int
+	// Multi: the call returns more than one result (only the first is followed).
+	Multi bool
 }
 
 // Action is a path from a root value to one niladic method call. It is plain
@@ -62,6 +64,29 @@ type Action struct {
 	ListResult bool
 	// NonEmpty: that list result had at least one element at discovery time.
 	NonEmpty bool
+}
+
+// GoExpr renders the path as a compilable Go expression on variable v. A call
+// in the middle of the path that returns several results is wrapped in
+// first(...), to be declared as
+//
+//	func first[T any](v T, _ ...any) T { return v }
+func (a Action) GoExpr(v string) string {
+	e := v
+	for k, s := range a.Steps {
+		switch s.Kind {
+		case Field:
+			e += "." + s.Name
+		case Index:
+			e += "[" + strconv.Itoa(s.I) + "]"
+		case Call:
+			e += "." + s.Name + "()"
+			if s.Multi && k < len(a.Steps)-1 {
+				e = "first(" + e + ")"
+			}
+		}
+	}
+	return e
 }
 
 // Prefix returns the steps without the final call (the receiver's location).
@@ -94,11 +119,16 @@ func DefaultConfig() Config {
 
 var mutatorPrefixes = []string{"Set", "Add", "Update", "Delete", "Del", "With"}
 
-// ReadOnlyName reports whether a method name is not a mutator by name.
+// ReadOnlyName reports whether a method name is not a mutator by name: it does
+// not start with the *word* Set/Add/Update/Delete/Del/With (CamelCase word
+// boundary: AddOption is a mutator, Addresses is not).
 func ReadOnlyName(n string) bool {
 	for _, p := range mutatorPrefixes {
 		if strings.HasPrefix(n, p) {
-			return false
+			rest := n[len(p):]
+			if rest == "" || !(rest[0] >= 'a' && rest[0] <= 'z') {
+				return false
+			}
 		}
 	}
 	return true
@@ -262,7 +292,7 @@ func (w *walker) walk(cur reflect.Value, steps []Step, calls, nonCall int, via s
 			if m.PkgPath != "" || m.Type.NumIn() != 1 || m.Type.NumOut() < 1 || !ReadOnlyName(m.Name) {
 				continue
 			}
-			st := append(append([]Step{}, steps...), Step{Kind: Call, Name: m.Name})
+			st := append(append([]Step{}, steps...), Step{Kind: Call, Name: m.Name, Multi: m.Type.NumOut() > 1})
 			a := Action{Steps: st, Expr: exprOf(st), Method: TypeName(t) + "." + m.Name, Via: via, Calls: calls + 1}
 			if w.seen[a.Expr] {
 				continue
